@@ -83,7 +83,7 @@ CACHE_INV = "forall(p, 0, len(state.src) + 1, implies(p in state.cache, state.ca
 add(Contract(
     QL, params={"state": "obj:StateInline", "start": "int", "disableNested": "bool"}, result="int", props=["C01", "C20", "C02"],
     modifies=["state.pos", "state.cache"],
-    requires=[("start", "0 <= start and start < state.posMax and state.posMax <= len(state.src)"), ("nest", "state.md.options.maxNesting >= 1"), ("cache-inv", CACHE_INV)],
+    requires=[("start", "0 <= start and start <= state.posMax and state.posMax <= len(state.src)"), ("nest", "state.md.options.maxNesting >= 1"), ("cache-inv", CACHE_INV), IL.POSMAX_TERM],
     ensures=[
         ("pos-restored", "state.pos == old(state.pos)", ["C01", "C02"]),
         ("label-end", "result == -1 or (start < result and result < state.posMax and state.src[result] == ']')", ["C01", "C02"]),
